@@ -187,7 +187,90 @@ def _history_group(g):
 
 
 replay_history = common.per_case(_history_group, 'history')
-REPLAYERS = {'grid': replay_grids, 'factory': replay_factory, 'history': replay_history}
+
+_REPR_GRIDS = [dict(M=3, L=4, I=10, J=5, spacing='gauss', impl='real', mult=1),
+               dict(M=3, L=4, I=10, J=5, spacing='gauss', impl='fast', mult=2)]
+
+
+def _repr_one(c):
+  """Representations.tla: a tree of scalar / modal / nodal leaves through a sequence of maybe_to_nodal / maybe_to_modal."""
+  np, jax, jnp = spectral.np_jax()
+  from dinosaur import coordinate_systems as cs, sigma_coordinates as sc, spherical_harmonic as sh
+  out = []
+  brief = {k: c[k] for k in ('leaves', 'grid', 'ops', 'variant')}
+
+  def bad(sig, detail):
+    out.append({'case': brief, 'sig': 'repr:' + sig, 'detail': detail})
+  if c['grid'] == 'coincident':
+    # reference layout with 2M-1 longitude nodes and L latitude nodes: nodal shape == modal shape
+    grid = sh.Grid(longitude_wavenumbers=3, total_wavenumbers=4, longitude_nodes=5, latitude_nodes=4,
+                   spherical_harmonics_impl=sh.RealSphericalHarmonics)
+    if tuple(grid.nodal_shape) != tuple(grid.modal_shape):
+      return out          # the layout changed: this grid no longer realises the deviation
+  else:
+    grid = spectral.make_grid(_REPR_GRIDS[c['variant'] % 2])
+  K = 2
+  coords = cs.CoordinateSystem(grid, sc.SigmaCoordinates.equidistant(K))
+  mask = np.asarray(grid.mask)
+  rs = np.random.RandomState(11 + c['variant'])
+  names, coef, nod, tree = [], [], [], {}
+  for i, leaf in enumerate(c['leaves']):
+    name = f'leaf{i}'
+    names.append(name)
+    if leaf['kind'] == 'scalar':
+      coef.append(None); nod.append(None)
+      val = jnp.asarray(7.5 + i)
+    else:
+      pre = (K,) if leaf['rank'] == 3 else ()
+      x = rs.randn(*(pre + tuple(grid.modal_shape))) * mask
+      x[..., grid.total_wavenumbers - 1:] = 0.0          # band-limited below the clipped top wavenumber
+      x = jnp.asarray(x)
+      coef.append(x); nod.append(grid.to_nodal(x))
+      val = x if leaf['rep'] == 'modal' else nod[-1]
+    (tree if i == 0 else tree.setdefault('sub', {}))[name] = val
+  get = lambda t, i: t[names[i]] if i == 0 else t['sub'][names[i]]
+  tags = [leaf['rep'] for leaf in c['leaves']]
+  for k, op in enumerate(c['ops']):
+    fn = cs.maybe_to_nodal if op == 'to_nodal' else cs.maybe_to_modal
+    new = fn(tree, coords)
+    if jax.tree_util.tree_structure(new) != jax.tree_util.tree_structure(tree):
+      bad('structure', f'{op} changed the tree structure')
+      return out
+    want = c['snaps'][k]
+    shapes = {'nodal': cs.get_nodal_shapes(new, coords), 'modal': cs.get_modal_shapes(new, coords)}
+    for i, leaf in enumerate(c['leaves']):
+      a, b = get(tree, i), np.asarray(get(new, i))
+      where = f'leaf {i} {leaf} after {c["ops"][:k + 1]} on the {c["grid"]} grid'
+      if want[i] == 'none':
+        if b.shape != () or b.tobytes() != np.asarray(a).tobytes():
+          bad('scalar_changed', f'{where}: {np.asarray(a)!r} -> {b!r}')
+        for r in ('nodal', 'modal'):
+          if np.asarray(get(shapes[r], i)).size != 0:
+            bad('shapes:scalar', f'{where}: get_{r}_shapes gives {np.asarray(get(shapes[r], i)).tolist()} for a scalar')
+        continue
+      pre = (K,) if leaf['rank'] == 3 else ()
+      for r, hs in (('nodal', grid.nodal_shape), ('modal', grid.modal_shape)):
+        if tuple(np.asarray(get(shapes[r], i)).tolist()) != pre + tuple(hs):
+          bad(f'shapes:{r}', f'{where}: get_{r}_shapes gives {np.asarray(get(shapes[r], i)).tolist()}, expected {pre + tuple(hs)}')
+      if want[i] == tags[i]:
+        # a leaf that already has the target shape is returned as it is
+        if b.shape != np.asarray(a).shape or b.tobytes() != np.asarray(a).tobytes():
+          bad(f'{op}:touched', f'{where}: the leaf already was {tags[i]} (by shape) and must be returned unchanged')
+        continue
+      ref = np.asarray(nod[i] if want[i] == 'nodal' else coef[i])
+      if b.shape != ref.shape:
+        bad(f'{op}:shape', f'{where}: shape {b.shape}, the specification has a {want[i]} leaf of shape {ref.shape}')
+        continue
+      sel = (Ellipsis,) if want[i] == 'nodal' else (Ellipsis, mask)
+      err = np.abs(b[sel] - ref[sel]).max()
+      if not err <= 256 * 2.220446049250313e-16 * max(grid.nodal_shape) * (np.abs(ref).max() + 1.0):
+        bad(f'{op}:value', f'{where}: differs from the {want[i]} representation of the same band-limited function by {err:.3e}')
+    tree, tags = new, list(want)
+  return out
+
+
+replay_repr = common.per_case(_repr_one, 'repr')
+REPLAYERS = {'grid': replay_grids, 'factory': replay_factory, 'history': replay_history, 'repr': replay_repr}
 
 
 def replay(ctx, kind, cases):
@@ -269,7 +352,19 @@ def run(ctx):
   rp = ctx.tlc('OperatorsPoly', 'OperatorsPoly.cfg', workers=2)
   ctx.require_actions(rp, ['First', 'Second'])
   res += common.parallel_map('c01', 'replay_poly_integrals', rp.cases, nproc=4, tag='poly', outdir=os.path.join(ctx.out, 'par'))
-  ctx.replayed += len(cases) + len(fac) + len(seqs) * len(groups) + len(rp.cases)
+  # representation state machine of maybe_to_nodal / maybe_to_modal (Representations.tla)
+  rr = ctx.tlc('Representations', 'Representations_quick.cfg' if q else 'Representations_thorough.cfg', workers=2)
+  ctx.require_actions(rr, ['ToNodal', 'ToModal'])
+  reprs = []
+  for i, c in enumerate(rr.cases):
+    c['variant'] = i
+    reprs.append(c)
+  if not any(c['grid'] == 'coincident' for c in reprs) or not any(len(set(c['ops'])) == 2 for c in reprs):
+    raise common.MachineryError('vacuous export of Representations')
+  res += common.parallel_map('c01', 'replay_repr', reprs, nproc=4 if q else 8, tag='repr', outdir=os.path.join(ctx.out, 'par'))
+  ctx.notes['representation_behaviours_replayed'] = len(reprs)
+  ctx.comparisons += sum(len(c['ops']) * len(c['leaves']) * 3 for c in reprs)
+  ctx.replayed += len(cases) + len(fac) + len(seqs) * len(groups) + len(rp.cases) + len(reprs)
   ctx.sample({'kind': 'history', 'ops': seqs[len(seqs) // 2]})
   nlab = sum(len(c['labels']) * len(c['variants']) for c in cases)
   ctx.comparisons += nlab * 4
@@ -279,7 +374,7 @@ def run(ctx):
     ctx.distinct.add((c['M'], c['L'], c['I'], c['J'], c['spacing'], c['impl'], c['mult']))
   for m in res:
     cc = dict(m['case'])
-    ctx.mismatch(m['sig'].split(':')[0] if m['sig'].split(':')[0] in ('factory', 'history') else 'grid', cc, m['sig'], m['detail'])
+    ctx.mismatch(m['sig'].split(':')[0] if m['sig'].split(':')[0] in ('factory', 'history', 'repr') else 'grid', cc, m['sig'], m['detail'])
   s = cases[len(cases) // 2]
   ctx.sample({k: s[k] for k in ('M', 'L', 'I', 'J', 'spacing', 'impl', 'mult', 'modal_shape', 'nodal_shape')}
              | {'labels': s['labels'][:4]})
